@@ -370,6 +370,18 @@ def runLine (r : Report) (sec : Nat) (l : Line) : Report := Id.run do
       | _ => false)
     if !okRes then r := r.violation sec l.idx s!"ForEach outcome {resS} not allowed op=[{opS}]"
     return r
+  -- several cancels in one call
+  let cbs := hist.filterMap fun e => match e with | .cbegin _ k => some k | _ => none
+  if cbs.eraseDups.length ≥ 2 then
+    r := r.addCover s!"several-cancels-different-errors-{run.api}"
+    if cancelCodes.eraseDups.length ≥ 2 ∧ cancelCodes.any (fun k => k = 0 ∨ k ≥ 100) then r := r.addCover s!"several-cancels-different-dynamic-types-{run.api}"
+  if (upTo (· == .ctxBegin) hist).any (fun e => match e with | .cbegin _ _ => true | _ => false) ∧ hist.contains .ctxBegin ∧
+      ¬ (upTo (· == .ctxBegin) hist).any isCend ∧ (upTo (· == .ret) hist).contains .ctxBegin then
+    r := r.addCover s!"context-ends-while-a-user-cancel-is-in-progress-{run.api}"
+  -- a panic nobody raised: the library's own two panics have a user cause (a reducer that writes twice / writes after
+  -- the output was closed); every other re-raised value must be the value of a user function that did panic
+  if resS.startsWith "panic:" ∧ panicked = 0 ∧ resS ≠ "panic:multi" ∧ resS ≠ "panic:sendclosed" then
+    return r.violation sec l.idx s!"the call panicked ({resS}) although no user function did: a runtime panic of the library instead of a cancel / context error hist={histS} op=[{opS}]"
   let some res := (if resS = "ok" then some (.err .noOutput) else parseRes resS)
     | return r.violation sec l.idx s!"outcome {resS} is neither a cancel/context error, a user panic nor a value op=[{opS}]"
   let hr := upTo (· == .ret) hist
@@ -416,7 +428,9 @@ def runLine (r : Report) (sec : Nat) (l : Line) : Report := Id.run do
       | .err .nilCancel => cancelBegan none hr
       | _ => false
     if lateCancel then
-      r := r.mismatch sec l.idx s!"the first completed cancel wins (sync.Once): the error of a later cancel call cannot be returned hist={histS}" resS
+      -- (round 5b: a violation, no longer only a broken correspondence: cancel is idempotent after the first — `once` —
+      -- `Props.first_cancel_wins`, `Props5.once_records_the_first`)
+      r := r.violation sec l.idx s!"the returned error {resS} is not the first cancelled one nor a context error: it was passed to a cancel call that began after another cancel call had returned (cancel must be idempotent after the first) hist={histS} op=[{opS}]"
     else
       r := r.violation sec l.idx s!"outcome {resS} is not possible for the schedule that happened ({schedWhy mapped hist res}) hist={histS} op=[{opS}]"
   if noCancel c ∧ panicked > 0 ∧ ¬ isPanicRes res then
